@@ -7,6 +7,7 @@ package main
 //      one matcher instance applied to k cells in sequence (its buffer is reused); upper = ToUpper(&buf, cell) with one buffer
 
 import (
+	"strconv"
 	"fmt"
 	"regexp"
 	"sort"
@@ -79,6 +80,19 @@ func likeSection(r *tx.Rng, w *tx.W, size int, opt map[string]string) {
 		if size >= 2 && r.P(1, 40) {
 			cells[i] = strings.Repeat("ɐé", 300) + cells[i]
 		}
+	}
+	// now and then the interesting cells come after some 190..250 other distinct values: in the enum column their codes
+	// then lie in the last word of the bit set (and around the 255 limit)
+	if r.P(1, 12) {
+		nfill := r.PickInt([]int{126, 190, 191, 192, 200, 246})
+		if nfill+len(cells) > 254 {
+			nfill = 254 - len(cells)
+		}
+		fill := make([]string, nfill)
+		for i := range fill {
+			fill[i] = "\x01fill" + strconv.Itoa(i) // no generated pattern text contains the control byte
+		}
+		cells = append(fill, cells...)
 	}
 	// oracle: unicode.ToUpper for every rune
 	runes := map[rune]bool{}
